@@ -18,6 +18,6 @@ CONSTANTS
   AbandonKeepsTargetId = FALSE
   DirectStaysActive = FALSE
   StaleInsertAfterScrub = FALSE
-INVARIANTS TypeOK UniqueIds IdRange WireUnique Protected AllocAgrees
+INVARIANTS TypeOK UniqueIds IdRange WireUnique Protected RoutedProtected AllocAgrees
 
 CHECK_DEADLOCK FALSE
